@@ -297,6 +297,48 @@ func dispatch(seed uint64, pool [][32]byte, class string) {
 	g.emit(class)
 }
 
+// expired-at-login: a key whose grants are all expired (or not yet effective) is still admitted as
+// the user (C05 asks for an unconsumed grant only); this class checks that such a session starts
+// nothing (c07_start_needs_grant_in_window): requests at and after the last expiry, before the
+// first start, and - for contrast - a few inside a window.
+func expiredAtLogin(seed uint64, pool [][32]byte) {
+	g := newGen(seed, pool, false)
+	defer g.w.Close()
+	r := g.r
+	g.do(&ax.Op{Kind: "EN", B: true})
+	var its []*ax.Intent
+	maxExp, minStart := int64(0), int64(1<<40)
+	for i, n := 0, 1+r.Intn(3); i < n; i++ {
+		start := int64(10 + r.Intn(20))
+		it := &ax.Intent{Type: byte(hv.Pick(r, []int{1, 2, 2})), Start: start, Exp: start + 1 + int64(r.Intn(20)), User: "alice", Key: 0}
+		if it.Type == 2 {
+			it.Cmd = hv.Pick(r, []string{"ls", "id", "ls -l"})
+		}
+		if it.Exp > maxExp {
+			maxExp = it.Exp
+		}
+		if it.Start < minStart {
+			minStart = it.Start
+		}
+		its = append(its, it)
+		g.do(&ax.Op{Kind: "AG", Intent: it})
+	}
+	if v := g.do(&ax.Op{Kind: "LG", User: "alice", Key: 0}); !v.OK {
+		g.emit("expired-at-login")
+		return
+	}
+	for i, n := 0, 4+r.Intn(5); i < n; i++ {
+		x := hv.Pick(r, its)
+		t := hv.Pick(r, []int64{maxExp, maxExp + 1, maxExp + 1000, 1 << 40, minStart - 1, 0, -5, x.Exp})
+		if r.Chance(15) {
+			t = x.Exp - 1 // inside: may start (once)
+		}
+		g.do(&ax.Op{Kind: "EX", Sid: 0, Cmd: x.Cmd, Shell: x.Type == 1, T: t})
+		g.nt = true
+	}
+	g.emit("expired-at-login")
+}
+
 func main() {
 	ax.SetupDispatch()
 	defer ax.CleanupDispatch()
@@ -353,5 +395,11 @@ func main() {
 		class := hv.Pick(r, []string{"dispatch-grant-session", "dispatch-grant-session", "dispatch-grant-session", "dispatch-key-session", "dispatch-acme"})
 		cases = append(cases, func() { dispatch(seed, pool, class) })
 	}
+	for i, k := 0, hv.Scale(60, 1000); i < k; i++ {
+		seed := r.U64()
+		cases = append(cases, func() { expiredAtLogin(seed, pool) })
+	}
+	// concurrent exec requests of one session (race.go)
+	cases = append(cases, raceCases(r, pool)...)
 	ax.RunCases(8, cases)
 }
